@@ -34,6 +34,11 @@ def h_index_maps(ctx, d, q, batch):
     ctx.claim('roundtrip_tt_qtt_tt', ctx.all_([ctx.eq(j[m], I[m]) for m in range(d)]))
     if batch:
         ctx.claim('batch_rows_agree', ctx.all_([ctx.eq(B[0][k], B[1][k]) for k in range(d * q)]))
+        # a batch with a single row stays a batch in both directions
+        B1 = teneva.ind_tt_to_qtt(np.array([I]), N)
+        J1 = teneva.ind_qtt_to_tt(B1, q)
+        ctx.claim('batch_of_one_keeps_batch_axis', np.shape(B1) == (1, d * q) and np.shape(J1) == (1, d))
+        ctx.claim('batch_of_one_roundtrip', ctx.all_([ctx.eq(J1[0][m], I[m]) for m in range(d)]))
 
 
 def h_index_maps_rev(ctx, d, q):
@@ -161,7 +166,7 @@ def h_qtt_cap(ctx, r, cap, rows):
     ctx.claim('finite', finite(ctx, Q))
     G2 = teneva.core_qtt_to_tt(Q)
     wmin2 = ctx.min_([x * x for x in w])
-    if cap >= 2 * r:
+    if cap >= r:
         ctx.claim('reproduced_when_nothing_truncated', ctx.any_([ctx.ge(e * e, wmin2), ctx.all_eq(G2, G0)]))
     ctx.claim('argument_untouched', ctx.all_eq(G, G0))
 
